@@ -189,7 +189,64 @@ def h_clear(d, sx, lb, lf, feat, nfeat, k, ln):
     return True
 
 
+def h_clear_twice(d, sx, lf):
+    """two erasures in one process with different name sets on equal values: each is judged on its own names"""
+    x = _mk(d, 'x', sx, 1, lf, 'mixed')
+    y = _mk(_Same(d), 'x', sx, 1, lf, 'mixed')          # an equal value built again
+    n1 = [d.string('n1', lf, ANYCHAR.minus(','))]
+    n2 = [d.string('n2', lf, ANYCHAR.minus(',')), d.string('n3', lf, ANYCHAR.minus(','))]
+    C = catgen.cats()
+
+    def expect(a, names):
+        if a.is_functor:
+            return C.Functor(expect(a.left, names), a.slash, expect(a.right, names))
+        v = a.feature.value
+        if v is not None and any(v == nm for nm in names):
+            return C.Atom(a.base)
+        return a
+    r1 = x.clear_features(*n1)
+    if not ref_eq(r1, expect(x, n1)):
+        return ('clear.first-erasure-wrong',)
+    r2 = y.clear_features(*n2)
+    if not ref_eq(r2, expect(y, n2)):
+        return ('clear.second-erasure-with-other-names-wrong', sym_str(y), sym_str(r2))
+    r3 = r1.clear_features(*n2)
+    if not ref_eq(r3, expect(r1, n2)):
+        return ('clear.chained-erasure-wrong',)
+    return True
+
+
+class _Same:
+    """re-issues the symbolic strings already drawn under the same names"""
+
+    def __init__(self, d):
+        self.d, self.symbolic = d, d.symbolic
+
+    def string(self, name, n, alpha):
+        if self.d.symbolic:
+            from engines.pysym.core import mk
+            return mk(self.d.vars[name][1])
+        return self.d.values[name]
+
+    def char_in(self, name, chars):
+        return self.string(name, 1, None)
+
+    def boolean(self, name):
+        if self.d.symbolic:
+            from engines.pysym.core import E
+            import z3
+            v = self.d.vars[name][1]
+            return E.decide(v == 1)
+        return self.d.values[name] == 1
+
+    def choice(self, name, k):
+        return 1 if self.boolean(name) else 0
+
+
 def obligations(tier):
+    for sx in shapes_upto(2 if tier == 'quick' else 3):
+        for lf in (1, 2):
+            yield Obligation('C13.clear-twice[%s,lf=%d]' % (shape_name(sx), lf), 'h_clear_twice', dict(sx=sx, lf=lf))
     q = tier == 'quick'
     L = 3 if q else 4
     lens = [(1, 1), (2, 2)] if q else [(1, 1), (2, 2), (3, 3), (1, 3), (3, 1)]
